@@ -49,7 +49,9 @@ private:
     using ComplexVector = Eigen::Matrix<Complex, Eigen::Dynamic, 1>;
     using SparseComplexMatrix = Eigen::SparseMatrix<Complex, Flags, StorageIndex>;
 
-    using ComplexSolver = Eigen::SparseLU<SparseComplexMatrix>;
+    // Eigen::SparseLU mishandles row-major input, so the factorization always works on a column-major copy
+    using ColMajorSparseComplexMatrix = Eigen::SparseMatrix<Complex, Eigen::ColMajor, StorageIndex>;
+    using ComplexSolver = Eigen::SparseLU<ColMajorSparseComplexMatrix>;
 
     ConstGenericSparseMatrix m_mat;
     const Index m_n;
@@ -97,7 +99,8 @@ public:
         SparseComplexMatrix I(m_n, m_n);
         I.setIdentity();
         // Sparse LU decomposition
-        m_solver.compute(m_mat.template cast<Complex>() - Complex(sigmar, sigmai) * I);
+        const ColMajorSparseComplexMatrix mat = m_mat.template cast<Complex>() - Complex(sigmar, sigmai) * I;
+        m_solver.compute(mat);
         // Set cache to zero
         m_x_cache.resize(m_n);
         m_x_cache.setZero();
